@@ -22,9 +22,21 @@ type lockedRand struct {
 //go:linkname raftGlobalRand github.com/coreos/etcd/raft.globalRand
 var raftGlobalRand *lockedRand
 
+// tagSource: every draw is a function of the run seed, the label of the calling
+// goroutine (the simulated node) and that goroutine's own draw count. The
+// draws are made on a group's raft goroutine, so a group's sequence of
+// election timeouts does not depend on what other groups or nodes draw.
+type tagSource struct{ seed uint64 }
+
+func (t *tagSource) Int63() int64 {
+	z := mix64(t.seed ^ runtimeVerifGetTag()*0x9e3779b97f4a7c15 ^ runtimeVerifNextCount()*0xd6e8feb86659fd93)
+	return int64(z >> 1)
+}
+func (t *tagSource) Seed(int64) {}
+
 func reseedRaftRand(seed uint64) {
 	raftGlobalRand.mu.Lock()
-	raftGlobalRand.rand = rand.New(rand.NewSource(int64(seed>>1) | 1))
+	raftGlobalRand.rand = rand.New(&tagSource{seed: seed | 1})
 	raftGlobalRand.mu.Unlock()
 }
 
@@ -32,25 +44,29 @@ func reseedRaftRand(seed uint64) {
 // generator; the simulator replaces it by a seeded counter-hash generator so
 // that dataset / partition / notification ids are a function of the run seed.
 //
-//go:linkname uuidGlobal github.com/satori/go.uuid.global
+//go:linkname uuidGlobal github.com/satori/go%2euuid.global
 var uuidGlobal uuid.Generator
 
 type seededUUID struct {
 	mu   sync.Mutex
 	seed uint64
-	n    uint64
+	n    map[uint64]uint64 // per goroutine label (simulated node): ids drawn so far
 }
 
-var theUUIDGen = &seededUUID{}
+var theUUIDGen = &seededUUID{n: map[uint64]uint64{}}
 
+// next derives the id from the run seed, the label of the calling goroutine
+// (the simulated node it belongs to) and that label's own counter, so that the
+// ids a node draws do not depend on what other nodes do concurrently.
 func (g *seededUUID) next() uuid.UUID {
+	tag := runtimeVerifGetTag()
 	g.mu.Lock()
-	g.n++
-	n := g.n
+	g.n[tag]++
+	n := g.n[tag]
 	seed := g.seed
 	g.mu.Unlock()
 	var u uuid.UUID
-	a := mix64(seed ^ n*0x9e3779b97f4a7c15)
+	a := mix64(seed ^ n*0x9e3779b97f4a7c15 ^ tag*0xd6e8feb86659fd93)
 	b := mix64(a ^ 0xdeadbeefcafef00d ^ n)
 	for i := 0; i < 8; i++ {
 		u[i] = byte(a >> (8 * i))
@@ -83,6 +99,6 @@ func installUUIDGenerator() {
 func resetUUIDGenerator(seed uint64) {
 	theUUIDGen.mu.Lock()
 	theUUIDGen.seed = seed
-	theUUIDGen.n = 0
+	theUUIDGen.n = map[uint64]uint64{}
 	theUUIDGen.mu.Unlock()
 }
